@@ -64,3 +64,12 @@ def replay_enc(cls, pin, pan, key):
     if back != pin:
         return True, 'PIN read back as %r' % back, 'C13/enc-roundtrip'
     return False, 'ok', None
+
+
+def replay_iso0_two(pin, pans):
+    res = (False, 'ok', None)
+    for k, pan in enumerate(pans):
+        res = replay_iso0(pin, pan)
+        if res[0]:
+            return True, 'card %d (%s): %s' % (k + 1, pan, res[1]), 'C13/iso0-second-card' if 'layout' in (res[2] or '') else res[2]
+    return res
